@@ -14,13 +14,15 @@ for EVERY selection (not only solutions).
 
 Shared ids.  Reading recorded in DESIGN.md: a node carries `some k` when it has in-degree ≥ 2 in the
 cause DAG reachable from the top.  Proved: equal ids ⇒ equal subtrees; an id is the arena index of the
-node; a node with an id occurs at least twice in the unfolded tree.
-Open: the converse ("occurs twice and is not below another repeated node ⇒ carries an id") — covered
-by the correspondence (exact tree equality with the model) and by the harness's independent
-reconstruction of the expected shared ids from the store.
+node; a node with an id occurs at least twice in the unfolded tree; and the exact characterisation
+(`C03_shared_iff`): the tree is the unfolding of the store's cause DAG from the terminal clause in which
+a derived node for id `k` carries `some k` EXACTLY when at least two distinct cause edges `(parent, side)`
+of the reachable DAG lead to `k` (the traversal expands every reachable derived node once and marks
+what it meets again).
 -/
 import PubgrubProofs.StoreInvariant
 import PubgrubProofs.TreeSound
+import PubgrubProofs.SharedIds
 
 namespace Pubgrub.C03
 open Pubgrub
@@ -67,5 +69,18 @@ theorem C03_shared_twice_partial (W : World P S V M) (hW : W.SetsValid) (debug :
   obtain ⟨terminal, _, _, _, hbuild, hinv, _, _⟩ :=
     noSolution_tree_origin W hW debug fuel root rv s tree h
   exact buildDerivationTree_shared_iff_partial W root rv s.st hinv terminal tree hbuild k t hk
+
+/-- the shared-id clause in full: marked exactly when reachable along two distinct cause edges -/
+theorem C03_shared_iff (W : World P S V M) (hW : W.SetsValid) (debug : Bool) (fuel : Nat)
+    (root : P) (rv : V) (s : SolverState P S V M Pr) (tree : DerivationTree P S V M)
+    (h : Reachable (E := E) W debug fuel root rv (s, .noSolution tree)) :
+    ∃ (terminal : Nat) (sh : Nat → Bool), IsTreeOf s.st.store sh terminal tree ∧
+      ∀ k, sh k = true ↔
+        (∃ inc a b, s.st.store[k]? = some inc ∧ inc.causes = some (a, b)) ∧
+          TwoEdgesTo s.st.store terminal k := by
+  obtain ⟨terminal, _, _, _, hbuild, hinv, _, _⟩ :=
+    noSolution_tree_origin W hW debug fuel root rv s tree h
+  obtain ⟨sh, h1, h2⟩ := buildDerivationTree_shared_iff W root rv s.st hinv terminal tree hbuild
+  exact ⟨terminal, sh, h1, h2⟩
 
 end Pubgrub.C03
